@@ -95,15 +95,18 @@ def run(ctx):
                 return
             fc.write(payload + "\n")
             n_cases[0] += 1
-            if len(samples) < 4 and len(payload) < 3000:
+            # samples (and the source of the self-test cases): per family the smallest line, so that the choice does
+            # not depend on the order in which TLC's workers print
+            if len(payload) < 3000:
                 for fam in ("forms", "wrap", "blend", "seac"):
-                    if fam not in samples and ('"fam":"%s"' % fam) in payload:
-                        samples[fam] = json.loads(payload)
+                    if ('"fam":"%s"' % fam) in payload and (fam not in samples or (len(payload), payload) < samples[fam]):
+                        samples[fam] = (len(payload), payload)
         mc = vlib.run_tlc(ctx, "MC_Type2", cfg, "mc", workers=4, timeout=600 if ctx.quick else 1500, sink=sink)
         if n_cases[0] == 0:
             raise vlib.ToolError("no CASE lines generated")
+        samples = {k: json.loads(v[1]) for k, v in samples.items()}
         src = samples.get("forms") or samples.get("wrap")
-        if src is None:
+        if src is None or not any(x["c"] in ("L", "C") for x in src["exp"]["cmds"]):
             raise vlib.ToolError("self-check: no forms/wrap case to corrupt")
         planted_cases = _selftest_cases(src)
         for c in planted_cases:
@@ -131,9 +134,11 @@ def run(ctx):
     violations = []
     per_key = {}
     selftest_seen = set()
+    selftest_runs = 0
     for m in vlib.read_ndjson(mism_path):
         if m["fam"] == "selftest":
             selftest_seen.add(m["tag"])
+            selftest_runs += 1
             continue
         cls = _cmd_class(m["want"], m["got"])
         key = "gen|%s|%s|%s|%s" % (m["fam"], m["kind"], m["feat"], cls)
@@ -261,14 +266,14 @@ def run(ctx):
     coverage = {
         "states": mc.distinct,
         "transitions": mc.generated,
-        "traces_validated_against_impl": rep["runs"] + rec["events"],
+        "traces_validated_against_impl": rep["runs"] - selftest_runs + rec["events"],
         "samples": [samples[k] for k in sorted(samples)] +
                    [{"case": src_ev["case"], "code": src_ev["a"]["code"], "nL": src_ev["a"]["nL"], "nG": src_ev["a"]["nG"],
                      "lsubrs_reached": [s["i"] for s in src_ev["a"]["lsubrs"]], "cmds_first": src_ev["o"]["cmds"][:4]}],
         "generated_cases": n_cases[0],
         "generated_cases_per_family": rep["cases_per_family"],
-        "replay_runs": rep["runs"],
-        "replay_mismatching_runs": rep["mismatches"],
+        "replay_runs": rep["runs"] - selftest_runs,
+        "replay_mismatching_runs": rep["mismatches"] - selftest_runs,
         "number_forms_used": rep["number_forms_used"],
         "operators_used": rep["operators_used"],
         "generated_case_features": rep["vacuity"],
@@ -276,7 +281,7 @@ def run(ctx):
         "recorded_events": rec["events"],
         "recorded_events_per_font": rec["per_font"],
         "recorded_visits_not_ok": rec["visits_not_ok"],
-        "events_judged": stats["judged"],
+        "events_judged": stats["judged"] - len(planted),
         "events_not_judged": notwf,
         "events_not_judged_but_accepted_by_allsorts": notwf_accepted,
         "judge_statistics": stats,
@@ -287,7 +292,7 @@ def run(ctx):
         "exhaustive": True,
         "explanation": "exhaustive over the bounded model (config %s); repository glyphs: %s" %
                        (cfg, "seeded sample (budget %d events)" % budget if budget else "every glyph of every CFF / CFF2 font, "
-                        "the variable font at 7 tuples"),
+                        "the variable font at 17 tuples"),
     }
     vlib.finish(ctx, LEVEL, coverage, violations, ASSUMPTIONS)
 
